@@ -79,6 +79,24 @@ def events(rng, homs):
         yield "crm", {"a": a1, "b": b_}, 1.0, (lambda live=live, B=B, set0=set0: (set0(), live.cross(V(B)).A)[1]), "SpatialVelocity.cross(live,after item assignment)"
         yield "crf", {"a": a1, "b": b_}, 1.0, (lambda live=live, B=B: (live @ F(B)).A), "SpatialVelocity@force(live,after item assignment)"
         yield "crm", {"a": a2, "b": b_}, 1.0, (lambda live=live, B=B, poppush=poppush: (poppush(), live.cross(V(B)).A)[1]), "SpatialVelocity.cross(live,after pop and append)"
+    # multi-valued objects: N values on each side, N = 2, 3, 6 (= the dimension of a spatial vector), 7
+    for N in (2, 3, 6, 7):
+        rows_a = [pts[(3 * i + N) % len(pts)] for i in range(N)]
+        rows_b = [pts[(5 * i + 1) % len(pts)] for i in range(N)]
+        fa = tuple(x for r in rows_a for x in r)
+        fb = tuple(x for r in rows_b for x in r)
+        for name, cls in C.items():
+            def mk(rows, cls=cls):
+                o = cls(np.array(rows[0], dtype=float))
+                for r in rows[1:]:
+                    o.append(cls(np.array(r, dtype=float)))
+                return o
+
+            def flat(o):
+                return np.array([np.asarray(a, dtype=float) for a in o.data]).ravel() if len(o.data) == N else np.zeros(1)
+            yield "addn", {"a": fa, "b": fb}, 1.0, (lambda mk=mk, flat=flat: flat(mk(rows_a) + mk(rows_b))), name + ".+(N=%d)" % N
+            yield "subn", {"a": fa, "b": fb}, 1.0, (lambda mk=mk, flat=flat: flat(mk(rows_a) - mk(rows_b))), name + ".-(N=%d)" % N
+            yield "negn", {"a": fa}, 1.0, (lambda mk=mk, flat=flat: flat(-mk(rows_a))), name + ".neg(N=%d)" % N
     # nearly equal (not equal) operands: m = K v + d with K = 1e6, so that m / K is within 1e-5 relative of v
     smalls = [(1, -2, 0, 3, -1, 2), (0, 1, 1, -1, 0, 2), (2, 0, -3, 0, 1, 1)]
     for i in range(6, len(pts)):
